@@ -1,4 +1,6 @@
 (* C01 — no byte stream can crash a terminal emulation.  PARTIAL: see notes/C01.md for what the theorems cover.
+   (Reconciled with the merged tree: the stream-supplied font and the DECFRA fill character no longer panic, so the
+   theorems have no known panic site left; the one remaining known class is the unbounded macro recursion.)
    Statements only; proofs in Proofs/SafeProofs.v (on top of the C09 development). *)
 From Coq Require Import ZArith NArith List Bool.
 From IE Require Import Model.TermCore Model.AnsiTok Model.Emu Proofs.TermProofs Proofs.AnsiProofs Proofs.EmuProofs Proofs.SafeProofs.
@@ -12,19 +14,29 @@ Theorem c01_standalone : forall e music bs w h cs,
   exists m', run e (init music bs w h) cs = RunOk m'.
 Proof. exact c01_standalone_proof. Qed.
 
-(* (b) the ANSI parser, ANY parser state (CSI, DCS, OSC, APS, music, ...), on a screen state that satisfies the C09
-   invariant and without stored macros: one character panics only at a KNOWN site *)
+(* (b) the ANSI parser, ANY parser state (CSI, DCS incl. font loading, OSC, APS, music, ...), on a screen state that
+   satisfies the C09 invariant and without stored macros: one character yields an action or an error value - no panic
+   site of the model is reached, the macro recursion is not entered *)
 Theorem c01_ansi_char_partial : forall fuel m ch, Inv09 (tm m) -> macros (ps m) = [] ->
-  match astep fuel m ch with OPanic s => KnownC01 s | _ => True end.
-Proof. exact astep_safe. Qed.
+  exists m', astep fuel m ch = OOk m' \/ astep fuel m ch = OErr m'.
+Proof. exact astep_ok_or_err. Qed.
 
 (* (c) stream form of (b): after any stream that executed no text-area resize (and left no macro stored) the next
-   character panics only at a known site; music option, backspace option and screen size arbitrary *)
+   character yields an action or an error value; music option, backspace option and screen size arbitrary *)
 Theorem c01_stream_partial : forall music bs w h cs m ch,
   1 <= w <= 132 -> 1 <= h <= 60 ->
   run EAnsi (init music bs w h) cs = RunOk m -> resized (ps (am m)) = false -> macros (ps (am m)) = [] ->
-  match step EAnsi m ch with MPanic s => KnownC01 s | _ => True end.
+  exists m', step EAnsi m ch = MOk m' \/ step EAnsi m ch = MErr m'.
 Proof. exact c01_next_char_proof. Qed.
+
+(* (c') every stream: it runs through to a state (every character an action or an error value), or the character at
+   which it stops (panic / macro recursion) was processed in a state reached after a text-area resize or with a macro
+   stored.  Uncovered m := resized (ps (am m)) = true \/ macros (ps (am m)) <> [] *)
+Theorem c01_ansi_stream_partial : forall music bs w h cs,
+  1 <= w <= 132 -> 1 <= h <= 60 ->
+  (exists m', run EAnsi (init music bs w h) cs = RunOk m') \/
+  (exists pre c post m', cs = pre ++ c :: post /\ run EAnsi (init music bs w h) pre = RunOk m' /\ Uncovered m').
+Proof. exact c01_ansi_stream_proof. Qed.
 
 (* (d) the operations of the terminal core never panic on a state of the invariant *)
 Theorem core_ops_never_panic : forall t c n, Inv09 t ->
@@ -41,16 +53,43 @@ Proof.
   - eapply limit_okr; [apply HI|reflexivity].
 Qed.
 
-(* ---- the known classes are real (witnesses), and the repaired ones are gone ------------------------------------------- *)
+(* ---- the known class is real (witness), and the repaired ones are gone ---------------------------------------------------- *)
 Definition outcome_of (music : Z) (cs : list Z) : Z :=
   match run EAnsi (init music false 80 25) cs with RunOk _ => 0 | RunPanic s => s | RunDiverge => -2 end.
-(* ESC P CTerm:Font:0: ESC \ *)
-Example known_font_witness : outcome_of 0 ([27; 80] ++ CTERM_FONT ++ [48; 58; 27; 92]) = SITE_FONT. Proof. vm_compute. reflexivity. Qed.
-(* CSI 55296;1;1;2;2 $ x *)
-Example known_fill_witness : outcome_of 0 [27; 91; 53; 53; 50; 57; 54; 59; 49; 59; 49; 59; 50; 59; 50; 36; 120] = SITE_FILL_CHAR. Proof. vm_compute. reflexivity. Qed.
+(* number of error values of a stream (-1000 after a panic / divergence) *)
+Fixpoint errors_of (m : mach) (cs : list Z) : Z :=
+  match cs with
+  | [] => 0
+  | c :: r => match step EAnsi m c with MOk m1 => errors_of m1 r | MErr m1 => 1 + errors_of m1 r | _ => -1000 end
+  end.
+Definition ST : list Z := [27; 92].
 (* ESC P 1;0;1!z 1B5B312A7A ESC \  then CSI 1*z : a macro that invokes itself *)
 Example known_macro_recursion_witness :
   outcome_of 0 ([27; 80; 49; 59; 48; 59; 49; 33; 122; 49; 66; 53; 66; 51; 49; 50; 65; 55; 65; 27; 92] ++ [27; 91; 49; 42; 122]) = -2.
+Proof. vm_compute. reflexivity. Qed.
+(* the Uncovered side of c01_ansi_stream_partial is not vacuous: that stream stops, and it stops with a macro stored *)
+Example macro_recursion_is_uncovered :
+  match run EAnsi (init 0 false 80 25) [27; 80; 49; 59; 48; 59; 49; 33; 122; 49; 66; 53; 66; 51; 49; 50; 65; 55; 65; 27; 92; 27; 91; 49; 42] with
+  | RunOk m => negb (Nat.eqb (length (macros (ps (am m)))) 0) | _ => false end = true.
+Proof. vm_compute. reflexivity. Qed.
+(* repaired by other properties' commits (merged tree): ESC P CTerm:Font:0: ESC \ is an error value (09bc4f1, 952a970) ... *)
+Example fixed_font_short : outcome_of 0 ([27; 80] ++ CTERM_FONT ++ [48; 58] ++ ST) = 0. Proof. vm_compute. reflexivity. Qed.
+Example fixed_font_short_is_error : errors_of (init 0 false 80 25) ([27; 80] ++ CTERM_FONT ++ [48; 58] ++ ST) = 1. Proof. vm_compute. reflexivity. Qed.
+(* ... and CSI 55296;1;1;2;2 $ x too *)
+Example fixed_fill_surrogate : outcome_of 0 [27; 91; 53; 53; 50; 57; 54; 59; 49; 59; 49; 59; 50; 59; 50; 36; 120] = 0. Proof. vm_compute. reflexivity. Qed.
+Example fixed_fill_surrogate_is_error : errors_of (init 0 false 80 25) [27; 91; 53; 53; 50; 57; 54; 59; 49; 59; 49; 59; 50; 59; 50; 36; 120] = 1. Proof. vm_compute. reflexivity. Qed.
+(* a loadable font (256 zero bytes = an 8x1 raw font, base64 "AAA...AA==") in slot 100 makes CSI 0;100 SP D an action;
+   without it the same sequence is an error value *)
+Definition FONT100 : list Z := [27; 80] ++ CTERM_FONT ++ [49; 48; 48; 58] ++ repeat 65 342 ++ [61; 61] ++ ST.
+Definition SEL100 : list Z := [27; 91; 48; 59; 49; 48; 48; 32; 68].
+Example font_load_then_select : errors_of (init 0 false 80 25) (FONT100 ++ SEL100) = 0. Proof. vm_compute. reflexivity. Qed.
+Example select_without_font : errors_of (init 0 false 80 25) SEL100 = 1. Proof. vm_compute. reflexivity. Qed.
+(* Avatar ^V^H 3 2 puts the cursor at column 2, row 1 (1-based bytes); ^V^H 0 0 at the origin; ^V^H 240 240 is clamped *)
+Example avatar_goto : match run EAvatar (init 0 false 80 25) [22; 8; 3; 2] with RunOk m => (cx (mt m), cy (mt m)) | _ => (-1, -1) end = (2, 1).
+Proof. vm_compute. reflexivity. Qed.
+Example avatar_goto_zero : match run EAvatar (init 0 false 80 25) [22; 8; 0; 0] with RunOk m => (cx (mt m), cy (mt m)) | _ => (-1, -1) end = (0, 0).
+Proof. vm_compute. reflexivity. Qed.
+Example avatar_goto_far : match run EAvatar (init 0 false 80 25) [22; 8; 240; 240] with RunOk m => (cx (mt m), cy (mt m)) | _ => (-1, -1) end = (79, 24).
 Proof. vm_compute. reflexivity. Qed.
 (* repaired: ESC ] 8 ; ; ESC \ | CSI 0;0 r CSI M | FF CSI SP @ | music O6B+ | 80 LF CSI 2147483647 e | CSI 1;2147483647 r CSI M *)
 Example fixed_osc8 : outcome_of 0 [27; 93; 56; 59; 59; 27; 92] = 0. Proof. vm_compute. reflexivity. Qed.
